@@ -120,6 +120,19 @@ impl<'src, 'b, I: Input<'src>, O, E: ParserExtra<'src, I>> Recursive<Indirect<'s
     }
 }
 
+// Verification hook (off by default): `define` without the `#[track_caller]` location lookup, which the
+// model checker cannot translate. Returns what `define` turns into its "can only be defined once" panic.
+#[cfg(any(kani, chumsky_verif))]
+impl<'src, 'b, I: Input<'src>, O, E: ParserExtra<'src, I>> Recursive<Indirect<'src, 'b, I, O, E>> {
+    #[doc(hidden)]
+    pub fn verif_try_define<P: Parser<'src, I, O, E> + Clone + 'src + 'b>(
+        &mut self,
+        parser: P,
+    ) -> Result<(), ()> {
+        self.parser().inner.set(Box::new(parser))
+    }
+}
+
 impl<P: ?Sized> Recursive<P> {
     #[inline]
     fn parser(&self) -> Rc<P> {
